@@ -285,11 +285,110 @@ def collect_delegates():
     return out, facts
 
 
+def collect_ccn():
+    """round 5: `CoupledClimateNetwork` (climate/coupled_climate_network.py): the assignments of
+    `self.N`, `self.N_1`, `self.N_2`, `self.nodes_1`, `self.nodes_2` in the constructor, and for
+    every other method (but `__str__`) every call of a method of `self` / `InteractingNetworks` in
+    source order with its arguments (the routing of the two node lists) plus every `return`
+    expression — the statements the model `Pyunicorn.CrossCCN` mirrors"""
+    meths = class_methods("src/pyunicorn/climate/coupled_climate_network.py",
+                          "CoupledClimateNetwork")
+    need("__init__" in meths, "CoupledClimateNetwork.__init__ not found")
+    facts = []
+    for st in ast.walk(meths["__init__"]):
+        if isinstance(st, ast.Assign) and len(st.targets) == 1 and dotted(st.targets[0]) in (
+                "self.N", "self.N_1", "self.N_2", "self.nodes_1", "self.nodes_2"):
+            facts.append(("__init__." + dotted(st.targets[0]), ast.unparse(st.value)))
+        if isinstance(st, ast.Call) and dotted(st.func) == "InteractingNetworks.__init__":
+            facts.append(("__init__.InteractingNetworks.__init__",
+                          ", ".join(call_record("", st)[2])))
+    need(len(facts) >= 6, f"only {len(facts)} constructor statements of CoupledClimateNetwork read")
+    calls = []
+    for name, fn in meths.items():
+        if name in ("__init__", "__str__"):
+            continue
+        found = []
+        for node in ast.walk(fn):
+            if isinstance(node, ast.Call):
+                callee = dotted(node.func)
+                if callee is not None and callee.split(".")[0] in ("self", "InteractingNetworks"):
+                    found.append((node.lineno, node.col_offset, call_record(name, node)))
+            if isinstance(node, ast.Return) and node.value is not None:
+                facts.append((name + ".return", ast.unparse(node.value)))
+            if isinstance(node, ast.Assign):
+                need(len(node.targets) == 1 and isinstance(node.targets[0], ast.Name),
+                     f"{name}: assignment to something else than a local name: "
+                     f"{ast.unparse(node)}")
+                facts.append((name + "." + node.targets[0].id, ast.unparse(node.value)))
+            if isinstance(node, ast.If):
+                facts.append((name + ".if", ast.unparse(node.test)))
+                facts.append((name + ".then", "; ".join(ast.unparse(x) for x in node.body)))
+                facts.append((name + ".else", "; ".join(ast.unparse(x) for x in node.orelse)))
+            need(not isinstance(node, (ast.For, ast.While, ast.AugAssign, ast.Try)),
+                 f"{name}: a wrapper with a loop / augmented assignment / try")
+        found.sort(key=lambda t: (t[0], t[1]))
+        calls += [t[2] for t in found]
+    need(len(calls) >= 30, f"only {len(calls)} wrapper calls of CoupledClimateNetwork read")
+    return calls, facts
+
+
+def collect_isrn():
+    """round 5: `InterSystemRecurrenceNetwork` (timeseries/inter_system_recurrence_network.py):
+    sizes, the assembly of the inter-system recurrence matrix from its four blocks, the removal of
+    the self-loops through the flat view, the call of `InteractingNetworks.__init__`, the wrappers;
+    and `CrossRecurrencePlot.cross_recurrence_rate` — the statements the model
+    `Pyunicorn.CrossISRN` mirrors"""
+    rel = "src/pyunicorn/timeseries/inter_system_recurrence_network.py"
+    meths = class_methods(rel, "InterSystemRecurrenceNetwork")
+    facts = []
+    need("__init__" in meths, "InterSystemRecurrenceNetwork.__init__ not found")
+    for st in ast.walk(meths["__init__"]):
+        if isinstance(st, ast.Assign) and len(st.targets) == 1 and dotted(st.targets[0]) in (
+                "self.N", "self.N_x", "self.N_y"):
+            facts.append(("__init__." + dotted(st.targets[0]), ast.unparse(st.value)))
+        if isinstance(st, ast.Call) and dotted(st.func) == "InteractingNetworks.__init__":
+            facts.append(("__init__.InteractingNetworks.__init__",
+                          ", ".join(call_record("", st)[2])))
+    whole = ["inter_system_recurrence_matrix", "internal_recurrence_rates", "cross_recurrence_rate",
+             "cross_global_clustering_xy", "cross_global_clustering_yx", "cross_transitivity_xy",
+             "cross_transitivity_yx"]
+    for name in whole + ["set_fixed_threshold", "set_fixed_recurrence_rate"]:
+        need(name in meths, f"InterSystemRecurrenceNetwork.{name} not found")
+        stmts = []
+        for node in ast.walk(meths[name]):
+            if isinstance(node, (ast.Assign, ast.AugAssign, ast.Return)):
+                stmts.append(node)
+            if name in whole:
+                need(not isinstance(node, (ast.For, ast.While, ast.AugAssign, ast.Try, ast.If)),
+                     f"ISRN.{name}: control flow / augmented assignment in a wrapper")
+        stmts.sort(key=lambda n: (n.lineno, n.col_offset))
+        for node in stmts:
+            if isinstance(node, ast.Return):
+                if node.value is not None:
+                    facts.append((name + ".return", ast.unparse(node.value)))
+                continue
+            need(isinstance(node, ast.Assign) and len(node.targets) == 1,
+                 f"ISRN.{name}: {ast.unparse(node)}")
+            tgt = ast.unparse(node.targets[0])
+            if name in whole or tgt.startswith("ISRM"):
+                facts.append((name + "." + tgt, ast.unparse(node.value)))
+    crp = class_methods("src/pyunicorn/timeseries/cross_recurrence_plot.py", "CrossRecurrencePlot")
+    need("cross_recurrence_rate" in crp, "CrossRecurrencePlot.cross_recurrence_rate not found")
+    for node in ast.walk(crp["cross_recurrence_rate"]):
+        if isinstance(node, ast.Return) and node.value is not None:
+            facts.append(("CrossRecurrencePlot.cross_recurrence_rate.return",
+                          ast.unparse(node.value)))
+    need(len(facts) >= 20, f"only {len(facts)} statements of InterSystemRecurrenceNetwork read")
+    return facts
+
+
 def main():
     resolve = type_table()
     casts, nmeth = collect_casts(resolve)
     cdecls = collect_cdecls()
     delegates, facts = collect_delegates()
+    ccn_calls, ccn_facts = collect_ccn()
+    isrn_facts = collect_isrn()
     L = ["/- generated by translate/gen_C11.py from the current source tree — do not edit -/",
          "namespace Pyunicorn.Generated.StructC11", "",
          "structure Cast where",
@@ -323,6 +422,18 @@ def main():
           "`Cross.srcMask`, `Cross.crossBetweenness` and `NetBetw.nsiBetweenness` (source text) -/",
           "def betwFacts : List (String × String) := ["]
     L.append(",\n".join(f"  ({lean_str(a)}, {lean_str(b)})" for a, b in facts) + "]")
+    L += ["", f"/-- round 5: number of calls of methods of `self` / `InteractingNetworks` inside the",
+          "wrappers of `CoupledClimateNetwork` -/",
+          f"def ccnCallsScanned : Nat := {len(ccn_calls)}", "",
+          "/-- round 5: the constructor's layer bookkeeping and every assignment, `if` and `return` of",
+          "the wrappers of `CoupledClimateNetwork` (source text; the translator refuses loops,",
+          "augmented assignments and `try` there) -/",
+          "def ccnFacts : List (String × String) := ["]
+    L.append(",\n".join(f"  ({lean_str(a)}, {lean_str(b)})" for a, b in ccn_facts) + "]")
+    L += ["", "/-- round 5: sizes, matrix assembly, self-loop removal, constructor call and wrappers of",
+          "`InterSystemRecurrenceNetwork`, and `CrossRecurrencePlot.cross_recurrence_rate` (source text) -/",
+          "def isrnFacts : List (String × String) := ["]
+    L.append(",\n".join(f"  ({lean_str(a)}, {lean_str(b)})" for a, b in isrn_facts) + "]")
     L += ["", "end Pyunicorn.Generated.StructC11", ""]
     os.makedirs(os.path.dirname(OUT), exist_ok=True)
     tmp = OUT + ".tmp"
